@@ -32,6 +32,7 @@ __all__ = ['Server', 'Client']
 
 import multiprocessing.connection
 import os
+import select
 import stat
 
 
@@ -66,7 +67,17 @@ class _Pipe:
 
         hw = os.open(self._wpath, os.O_SYNC | os.O_CREAT | os.O_RDWR)
         self._writer = multiprocessing.connection.Connection(hw, readable=False)
-        self._reader = None
+
+        # Open the read end right away, without blocking (a blocking open for reading would
+        # wait until the other end has opened the same path for writing).
+        # If it were opened only at the first `recv`, everything the other end has sent would be
+        # lost, and `recv` would block for ever, in case the other end has finished and closed
+        # (e.g. its process has exited) by then: the kernel discards the content of a FIFO
+        # that no process has open.
+        hr = os.open(self._rpath, os.O_RDONLY | os.O_NONBLOCK)
+        os.set_blocking(hr, True)
+        self._reader = multiprocessing.connection.Connection(hr, writable=False)
+        self._reader_ready = False
 
     def send_bytes(self, buf, offset=0, size=None):
         self._writer.send_bytes(buf, offset=offset, size=size)
@@ -75,13 +86,13 @@ class _Pipe:
         self._writer.send(obj)
 
     def _get_reader(self):
-        if self._reader is None:
-            # Open for reading will block until the other end
-            # has opened the same path for writing.
-            # That's why we don't open this in `__init__`.
-            # In contrast, open for writing does not block.
-            hr = os.open(self._rpath, os.O_RDONLY)
-            self._reader = multiprocessing.connection.Connection(hr, writable=False)
+        if not self._reader_ready:
+            # Before the first read, wait until the other end has shown up (it has sent
+            # something, or has opened the path for writing and closed it again).
+            # A read on a FIFO that nobody has opened for writing yet would
+            # report end-of-file instead of waiting.
+            select.select([self._reader], [], [])
+            self._reader_ready = True
         return self._reader
 
     def recv_bytes(self, maxlength=None):
